@@ -101,9 +101,42 @@ Definition pdf_is_alpha_lower (ch : Z) : bool := (ch =? 32) || ((97 <=? ch) && (
 Definition pdf_is_mixed (ch : Z) : bool := pdf_map_has pdf_mixed_map ch.
 Definition pdf_is_punct (ch : Z) : bool := pdf_map_has pdf_punct_map ch.
 
-(* encodeText, first loop: `for idx < len(text)`; a `continue` re-enters with the
-   same character (at most twice per character), hence the fuel.  Returns the
-   final sub-mode and tmp. *)
+(* encodeText, first loop, the body of `switch submode` for the character ch
+   (rest = text[idx+1:]): the new sub-mode, the values appended to tmp, and
+   whether idx is advanced (false = `continue` without idx++) *)
+Definition pdf_text_step (sm : pdf_submode) (ch : Z) (rest : list Z)
+  : pdf_submode * list Z * bool :=
+  match sm with
+  | SubUpper =>
+    if pdf_is_alpha_upper ch then
+      (sm, [if ch =? 32 then 26 else ch - 65], true)
+    else if pdf_is_alpha_lower ch then (SubLower, [27], false)       (* lower latch *)
+    else if pdf_is_mixed ch then (SubMixed, [28], false)             (* mixed latch *)
+    else (sm, [29; pdf_map_get pdf_punct_map ch], true)              (* punctuation switch *)
+  | SubLower =>
+    if pdf_is_alpha_lower ch then
+      (sm, [if ch =? 32 then 26 else ch - 97], true)
+    else if pdf_is_alpha_upper ch then (sm, [27; ch - 65], true)     (* upper switch *)
+    else if pdf_is_mixed ch then (SubMixed, [28], false)             (* mixed latch *)
+    else (sm, [29; pdf_map_get pdf_punct_map ch], true)              (* punctuation switch *)
+  | SubMixed =>
+    if pdf_is_mixed ch then (sm, [pdf_map_get pdf_mixed_map ch], true)
+    else if pdf_is_alpha_upper ch then (SubUpper, [28], false)       (* upper latch *)
+    else if pdf_is_alpha_lower ch then (SubLower, [27], false)       (* lower latch *)
+    else
+      match rest with
+      | next :: _ =>
+        if pdf_is_punct next then (SubPunct, [25], false)            (* punctuation latch *)
+        else (sm, [29; pdf_map_get pdf_punct_map ch], true)
+      | [] => (sm, [29; pdf_map_get pdf_punct_map ch], true)         (* punctuation switch *)
+      end
+  | SubPunct =>
+    if pdf_is_punct ch then (sm, [pdf_map_get pdf_punct_map ch], true)
+    else (SubUpper, [29], false)                                     (* upper latch *)
+  end.
+
+(* `for idx < len(text)`: a `continue` re-enters with the same character (at most
+   twice per character), hence the fuel.  Returns the final sub-mode and tmp. *)
 Fixpoint pdf_text_values (fuel : nat) (text : list Z) (sm : pdf_submode)
   : outcome (pdf_submode * list Z) :=
   match text with
@@ -112,38 +145,9 @@ Fixpoint pdf_text_values (fuel : nat) (text : list Z) (sm : pdf_submode)
     match fuel with
     | O => OutOfFuel
     | S f =>
-      let emit (vals : list Z) :=
-        do (sm', t) <- pdf_text_values f rest sm; Ok (sm', vals ++ t) in
-      let latch (v : Z) (sm1 : pdf_submode) :=
-        do (sm', t) <- pdf_text_values f text sm1; Ok (sm', v :: t) in
-      match sm with
-      | SubUpper =>
-        if pdf_is_alpha_upper ch then
-          emit [if ch =? 32 then 26 else ch - 65]
-        else if pdf_is_alpha_lower ch then latch 27 SubLower
-        else if pdf_is_mixed ch then latch 28 SubMixed
-        else emit [29; pdf_map_get pdf_punct_map ch]
-      | SubLower =>
-        if pdf_is_alpha_lower ch then
-          emit [if ch =? 32 then 26 else ch - 97]
-        else if pdf_is_alpha_upper ch then emit [27; ch - 65]
-        else if pdf_is_mixed ch then latch 28 SubMixed
-        else emit [29; pdf_map_get pdf_punct_map ch]
-      | SubMixed =>
-        if pdf_is_mixed ch then emit [pdf_map_get pdf_mixed_map ch]
-        else if pdf_is_alpha_upper ch then latch 28 SubUpper
-        else if pdf_is_alpha_lower ch then latch 27 SubLower
-        else
-          match rest with
-          | next :: _ =>
-            if pdf_is_punct next then latch 25 SubPunct
-            else emit [29; pdf_map_get pdf_punct_map ch]
-          | [] => emit [29; pdf_map_get pdf_punct_map ch]
-          end
-      | SubPunct =>
-        if pdf_is_punct ch then emit [pdf_map_get pdf_punct_map ch]
-        else latch 29 SubUpper
-      end
+      let '(sm1, vals, advance) := pdf_text_step sm ch rest in
+      do (sm', t) <- pdf_text_values f (if advance then rest else text) sm1;
+      Ok (sm', vals ++ t)
     end
   end.
 
